@@ -303,7 +303,7 @@ func evalVarDeclareStmt(vm *r.VM, node *syntax.VarDeclareStmt) error {
 					err2 = vm.DeclareElement(vtag, obj)
 				}
 				if err2 != nil {
-					return err
+					return err2
 				}
 			}
 		}
